@@ -323,6 +323,14 @@ func (e *Engine) callMods(fr *Frame, fn *ssa.Function, x ssa.CallInstruction, de
 		if _, ok := invokeSpecs[name]; ok {
 			return
 		}
+		if strings.HasSuffix(namedPath(cc.Value.Type()), ".BankKeeper") {
+			if ms, ok := bankModNames[cc.Method.Name()]; ok {
+				for _, n := range ms {
+					addAll(n)
+				}
+				return
+			}
+		}
 		if isDropped(name) || pureInvoke(cc) {
 			return
 		}
